@@ -18,10 +18,10 @@ open Model Model.Transfer Py
 /-- **stor_exact.**  Whatever the old content, verb (STOR / APPE), restart offset, block size and whatever valid
     chunking of the payload the successive `read(block_size)` calls return before the EOF read (and whatever
     reads would follow it), the target holds exactly `storSpec` afterwards — provided the open succeeds (it
-    always does except `r+b` on a missing file on the POSIX backends, see `stor_offset_missing_file`). -/
+    always does except `r+b`, i.e. a restart offset, on a missing file, see `stor_offset_missing_file`). -/
 theorem stor_exact (be : Backend) (old : Option Bytes) (v : UpVerb) (k bs : Nat) (payload : Bytes)
     (chunks rest : List Bytes) (hv : ValidChunking bs payload chunks)
-    (hopen : ¬ (be = .posix ∧ old = none ∧ k ≠ 0)) :
+    (hopen : ¬ (old = none ∧ k ≠ 0)) :
     storResult be old v k (chunks ++ [] :: rest) = some (storSpec (old.getD []) v k payload) := by
   rw [storResult_eq_spec be old v k _ hopen, iterByBlock_of_nonempty chunks rest (fun c hc => (hv.2 c hc).1), hv.1]
 
@@ -73,18 +73,16 @@ theorem appe_with_offset_overwrites (be : Backend) (old : Option Bytes) (k : Nat
 
 example : storResult .memory (some [1, 2, 3, 4]) .appe 1 [[9], []] = some [1, 9, 3, 4] := by decide
 
-/-- upload at an offset to a file that does not exist (treated separately; finding F6/F7 territory):
-    `MemoryPathIO` creates the file and NUL-fills up to the offset, the POSIX backends fail the open
-    (reply 451) and store nothing -/
-theorem stor_offset_missing_file (v : UpVerb) (k bs : Nat) (hk : 0 < k) (payload : Bytes) (chunks rest : List Bytes)
-    (hv : ValidChunking bs payload chunks) :
-    storResult .memory none v k (chunks ++ [] :: rest) = some (storSpec [] v k payload)
-    ∧ storResult .posix none v k (chunks ++ [] :: rest) = none := by
+/-- upload at an offset to a file that does not exist: on EVERY shipped backend the open fails (reply 451) and
+    nothing is stored (on the pinned tree `MemoryPathIO` created the file and NUL-filled up to the offset —
+    finding F7-c, repaired in /repo) -/
+theorem stor_offset_missing_file (be : Backend) (v : UpVerb) (k : Nat) (hk : 0 < k) (reads : List Bytes) :
+    storResult be none v k reads = none := by
   have hk' : k ≠ 0 := by omega
-  refine ⟨stor_exact .memory none v k bs payload chunks rest hv (by simp), ?_⟩
-  simp [storResult, storHandle_offset_none_posix v k hk']
+  simp [storResult, storHandle_offset_none be v k hk']
 
-example : storResult .memory none .stor 3 [[7], []] = some [0, 0, 0, 7] := by decide
+example : storResult .memory none .stor 3 [[7], []] = none ∧ storResult .memory none .stor 0 [[7], []] = some [7] := by
+  decide
 
 /-- **chunking_irrelevant.**  Any two valid chunkings of the same payload (different client write sizes,
     segmentations, delays; even different block sizes) store the same bytes -/
@@ -225,19 +223,21 @@ theorem retr_completion_after_close (file : Bytes) (k bs : Nat) :
     chunking of the payload, and answers 226 -/
 theorem session_worker_agrees (w : Session.World) (s : Session.SState) (p : Path) (v : UpVerb) (bs : Nat)
     (payload : Bytes) (chunks rest : List Bytes) (hv : ValidChunking bs payload chunks)
-    (hdc : s.dataConn = true) (hp : p ≠ []) (hpar : w.fs.isDir p.dropLast = true) (hnd : w.fs.lookup p ≠ some .dir) :
+    (hdc : s.dataConn = true) (hp : p ≠ []) (hpar : w.fs.isDir p.dropLast = true) (hnd : w.fs.lookup p ≠ some .dir)
+    (hex : Session.xferOffset v.toVerb s ≠ 0 → oldAt w.fs p ≠ none) :
     oldAt (Session.worker w s p v.toVerb payload).1.fs p
         = storResult .memory (oldAt w.fs p) v (Session.xferOffset v.toVerb s) (chunks ++ [] :: rest)
       ∧ (Session.worker w s p v.toVerb payload).2.2.replies = [226] :=
   worker_stor_agrees (Session.xferOffset v.toVerb s) w s p v payload _
-    (by rw [iterByBlock_of_nonempty chunks rest (fun c hc => (hv.2 c hc).1), hv.1]) hdc hp hpar hnd
+    (by rw [iterByBlock_of_nonempty chunks rest (fun c hc => (hv.2 c hc).1), hv.1]) hdc hp hpar hnd hex
 
 /-- **later_sessions_see_upload.**  After the upload step, a RETR by ANY session state (another user, another
     working directory, any offset handed to its transfer) on the same tree delivers exactly the specified
     content from that offset on, and the size a later `stat` reports (`Fs.size`) is its length -/
 theorem later_sessions_see_upload (w : Session.World) (s s₂ : Session.SState) (p : Path) (v : UpVerb)
     (payload : Bytes) (hdc : s.dataConn = true) (hdc₂ : s₂.dataConn = true) (hp : p ≠ [])
-    (hpar : w.fs.isDir p.dropLast = true) (hnd : w.fs.lookup p ≠ some .dir) :
+    (hpar : w.fs.isDir p.dropLast = true) (hnd : w.fs.lookup p ≠ some .dir)
+    (hex : Session.xferOffset v.toVerb s ≠ 0 → oldAt w.fs p ≠ none) :
     let w' := (Session.worker w s p v.toVerb payload).1
     let spec := storSpec ((oldAt w.fs p).getD []) v (Session.xferOffset v.toVerb s) payload
     (Session.worker w' s₂ p .retr []).2.2.data = spec.drop (Session.xferOffset .retr s₂)
@@ -245,8 +245,8 @@ theorem later_sessions_see_upload (w : Session.World) (s s₂ : Session.SState) 
       ∧ w'.fs.size p = spec.length := by
   intro w' spec
   have h := (worker_stor_agrees (Session.xferOffset v.toVerb s) w s p v payload [payload, []]
-    (by by_cases hpl : payload = [] <;> simp [iterByBlock, hpl]) hdc hp hpar hnd).1
-  rw [storResult_eq_spec .memory _ v _ _ (by simp)] at h
+    (by by_cases hpl : payload = [] <;> simp [iterByBlock, hpl]) hdc hp hpar hnd hex).1
+  rw [storResult_eq_spec .memory _ v _ _ (by intro ⟨a, b⟩; exact hex b a)] at h
   have hflat : (iterByBlock [payload, []]).flatten = payload := by
     by_cases hpl : payload = [] <;> simp [iterByBlock, hpl]
   rw [hflat] at h
